@@ -155,6 +155,10 @@ func (r *c05Recorder) do(phase string, ctx context.Context, b *tm.BusinessAction
 		return false, errors.New("scripted failure of " + r.name + "." + phase)
 	case "panic":
 		panic("scripted panic of " + r.name + "." + phase)
+	case "ok-false":
+		// no error: the boolean is not what the property (or the coordinator)
+		// is told about
+		return false, nil
 	}
 	return true, nil
 }
@@ -239,7 +243,7 @@ func genC05(seed uint64, tier string) *C05Plan {
 		}
 		n2 := g.Range(1, 6)
 		for j := 0; j < n2; j++ {
-			q := C05P2{Branch: g.Intn(np), Commit: g.Bool(), Data: "registered", Result: "ok"}
+			q := C05P2{Branch: g.Intn(np), Commit: g.Bool(), Data: "registered", Result: simkit.Pick(g, []string{"ok", "ok", "ok", "ok-false"})}
 			if g.Prob(0.12) {
 				q.Branch = -1
 			}
@@ -632,8 +636,9 @@ func runC05(t *testing.T, seed uint64, planJSON []byte, tier string) (res *Resul
 					if totalAfter-totalBefore != 1 {
 						vv("dispatch-once", "other-action-ran", "%d user methods ran for one request", totalAfter-totalBefore)
 					}
-					if (q.Result == "ok") != success {
-						if q.Result == "ok" {
+					userOK := q.Result == "ok" || q.Result == "ok-false"
+					if userOK != success {
+						if userOK {
 							vv("truthful-status", "no-success-after-ok", "user %s returned nil but the reply was answered=%v status=%d", phase, answered, status)
 						} else {
 							vv("truthful-status", "success-after-"+q.Result, "user %s outcome %s but the coordinator received status %d", phase, q.Result, status)
@@ -641,7 +646,7 @@ func runC05(t *testing.T, seed uint64, planJSON []byte, tier string) (res *Resul
 					}
 				}
 				sig := fmt.Sprintf("p2 commit=%v data=%s unknown=%v result=%s fake=%v", q.Commit, q.Data, q.Unknown, q.Result, fake)
-				if q.Data != "registered" || q.Unknown || q.Result != "ok" || fake {
+				if q.Data != "registered" || q.Unknown || (q.Result != "ok" && q.Result != "ok-false") || fake {
 					sig = "!" + sig
 				}
 				sim.State(sig)
